@@ -481,3 +481,24 @@ Definition ip6_roundtrip (l : ip6) (payload : list Z) (junk : list Z) : outcome 
   | (Err e, l') => (Err e, (l', Err e, false))
   | (Panic s, l') => (Panic s, (l', Panic s, false))
   end.
+
+(* in-range values (C06): what the wire format can carry *)
+Definition tlv_okb (o : tlv) : bool :=
+  bytes_okb (t_data o) && byte_okb (t_type o) && (n6_len (t_data o) <=? 255)
+  && (0 <=? t_ax o) && (t_ax o <? 256) && (0 <=? t_ay o) && ((t_ax o =? 0) || (t_ay o <? t_ax o))
+  && (0 <=? t_olen o).
+
+Definition ext_okb (l : ext) : bool :=
+  forallb tlv_okb (e_opts l) && byte_okb (e_next l) &&
+  (let '(_, _, total) := tlvs_ser false true (e_opts l) 2 in total <=? 2048).
+
+Definition ip6_okb (l : ip6) : bool :=
+  (0 <=? p_version l) && (p_version l <? 16) && byte_okb (p_tclass l) && (0 <=? p_flow l) && (p_flow l <? 1048576)
+  && byte_okb (p_next l) && byte_okb (p_hop l) && bytes_okb (p_src l) && (n6_len (p_src l) =? 16)
+  && bytes_okb (p_dst l) && (n6_len (p_dst l) =? 16)
+  && match p_hbh l with Some h => ext_okb h && (p_next l =? 0) | None => negb (p_next l =? 0) end.
+
+(* the fields C06 compares for IPv6 *)
+Definition ip6_fields (l : ip6) :=
+  (p_version l, p_tclass l, p_flow l, p_length l, p_next l, p_hop l, p_src l, p_dst l,
+   match p_hbh l with Some h => Some (e_next h, e_hlen h, tlv_nonpad (e_opts h)) | None => None end).
